@@ -25,7 +25,7 @@ def make_tracer(base_cls, log):
                 norm = dict(self._normalize_attributes(a) for a in attrs)
             except Exception:
                 norm = {}
-            rec = {"k": "start", "tag": tag, "attrs": attrs, "norm": norm, "pre": pre}
+            rec = {"k": "start", "tag": tag, "attrs": attrs, "norm": norm, "pre": pre, "pid": id(self)}
             log.append(rec)
             self._in_tag = True
             try:
@@ -36,7 +36,7 @@ def make_tracer(base_cls, log):
                 rec["post"] = _state(self)
 
         def unknown_endtag(self, tag):
-            rec = {"k": "end", "tag": tag, "pre": _state(self)}
+            rec = {"k": "end", "tag": tag, "pre": _state(self), "pid": id(self)}
             log.append(rec)
             self._in_tag = True
             try:
@@ -47,19 +47,19 @@ def make_tracer(base_cls, log):
 
         def handle_data(self, text, escape=1):
             # synth: markup re-serialised by unknown_starttag / unknown_endtag inside inline content, not character data from the tokenizer
-            log.append({"k": "data", "text": text, "escape": escape, "nelem": len(self.elementstack), "synth": self._in_tag})
+            log.append({"k": "data", "text": text, "escape": escape, "nelem": len(self.elementstack), "synth": self._in_tag, "pid": id(self)})
             return super().handle_data(text, escape)
 
         def handle_charref(self, ref):
-            log.append({"k": "charref", "ref": ref})
+            log.append({"k": "charref", "ref": ref, "pid": id(self)})
             return super().handle_charref(ref)
 
         def handle_entityref(self, ref):
-            log.append({"k": "entityref", "ref": ref})
+            log.append({"k": "entityref", "ref": ref, "pid": id(self)})
             return super().handle_entityref(ref)
 
         def track_namespace(self, prefix, uri):
-            log.append({"k": "ns", "prefix": prefix, "uri": uri, "in_start": self._in_start})
+            log.append({"k": "ns", "prefix": prefix, "uri": uri, "in_start": self._in_start, "pid": id(self)})
             return super().track_namespace(prefix, uri)
     Tracer.__name__ = "Tracer" + base_cls.__name__
     return Tracer
